@@ -356,6 +356,19 @@ int main(void) {
           sdk_quiet_gpio = 0;
           snapshot(0);
         }
+      } else if (!strcmp(op, "rsmargin") && ops_ntok == 3) { /* AdditionalTimeMargin of shutter i as the channel config sets it */
+        int i = atoi(ops_tok[1]);
+        if (i >= 0 && i < RS_MAX_COUNT && supla_rs_cfg[i].up) {
+          supla_esp_cfg.AdditionalTimeMargin[i] = atoi(ops_tok[2]);
+          supla_esp_gpio_rs_set_time_margin(&supla_rs_cfg[i], supla_esp_cfg.AdditionalTimeMargin[i]);
+        }
+        snapshot(0);
+      } else if (!strcmp(op, "physpos") && ops_ntok == 3) { /* motor model 3: physical position of shutter i in percent closed */
+        int i = atoi(ops_tok[1]);
+        if (i >= 0 && i < 8) fw_phys_pos[i] = atof(ops_tok[2]) / 100.0 * (fw_board.motor_down_ms > 0 ? fw_board.motor_down_ms : 1);
+      } else if (!strcmp(op, "physshow") && ops_ntok == 2) {
+        int i = atoi(ops_tok[1]);
+        if (i >= 0 && i < 8) sdk_out("PHYS %d %.2f", i, 100.0 * fw_phys_pos[i] / (fw_board.motor_down_ms > 0 ? fw_board.motor_down_ms : 1));
       } else if (!strcmp(op, "rsmanual") && ops_ntok == 2) { /* take the 10 ms accounting timer of shutter i into our hands */
         int i = atoi(ops_tok[1]);
         if (i >= 0 && i < RS_MAX_COUNT) os_timer_disarm(&supla_rs_cfg[i].timer);
@@ -363,10 +376,12 @@ int main(void) {
         int i = atoi(ops_tok[1]);
         sdk_advance_us((uint64_t)strtoull(ops_tok[2], 0, 10));
         if (i >= 0 && i < RS_MAX_COUNT && supla_rs_cfg[i].up) {
+          unsigned long long t0 = sdk_now_us;
           supla_esp_gpio_rs_timer_cb(&supla_rs_cfg[i]);
-          sdk_out("RSTICK %d pos=%d tilt=%d up=%d down=%d t=%llu", i, *supla_rs_cfg[i].position, *supla_rs_cfg[i].tilt,
+          sdk_out("RSTICK %d t0=%llu pos=%d tilt=%d up=%d down=%d t=%llu ts=%d dir=%d upT=%u downT=%u", i, t0, *supla_rs_cfg[i].position, *supla_rs_cfg[i].tilt,
                   __supla_esp_gpio_relay_is_hi(supla_rs_cfg[i].up), __supla_esp_gpio_relay_is_hi(supla_rs_cfg[i].down),
-                  (unsigned long long)sdk_now_us);
+                  (unsigned long long)sdk_now_us, supla_rs_cfg[i].task.state, supla_rs_cfg[i].task.direction,
+                  supla_rs_cfg[i].up_time, supla_rs_cfg[i].down_time);
         }
       } else if (!strcmp(op, "advus") && ops_ntok == 2) {
         sdk_advance_us((uint64_t)strtoull(ops_tok[1], 0, 10));
